@@ -31,11 +31,12 @@ warnings.filterwarnings("ignore")
 K_ADDNODE, K_ADDEDGE, K_DELEDGE, K_DELNODE, K_SWAP, K_SETATTR, K_UNDO, K_REDO, K_PAINT = range(1, 10)
 K_ENABLE, K_DISABLE = 10, 11
 CUSTOM_KEY = "vx_custom"
+ECUSTOM_KEY = "vx_ecustom"
 
 # model feature name <-> real key
 FEAT = {"tid": "track_id", "lid": "lineage_id", "pos": "pos", "area": "area", "iou": "iou",
         "circ": "circularity", "perim": "perimeter", "axes": "ellipse_axis_radii",
-        "cust": CUSTOM_KEY, "time": "time"}
+        "cust": CUSTOM_KEY, "ecust": ECUSTOM_KEY, "time": "time"}
 RFEAT = {v: k for k, v in FEAT.items()}
 FEAT_BITS = ["area", "iou", "circ", "lid", "pos", "tid", "perim", "axes"]  # bit i of a feature mask
 
@@ -44,7 +45,7 @@ class Cfg:
     """One configuration of a run: universe + how the tracks object is constructed."""
 
     def __init__(self, N=3, T=3, dims=(), scale=(), use_scale=True, reg_cust=False,
-                 per_axis_pos=False, name="struct", enable=()):
+                 per_axis_pos=False, name="struct", enable=(), rebuild=None):
         self.N, self.T = N, T
         self.dims = tuple(dims)
         self.scale = tuple(scale) if scale else tuple(1 for _ in dims)
@@ -53,6 +54,9 @@ class Cfg:
         self.per_axis_pos = per_axis_pos
         self.name = name
         self.enable = list(enable)      # model feature names enabled right after construction
+        # rebuild: after replaying a path, construct a NEW SolutionTracks from a copy of the graph
+        # (ids shifted down by `shift`, so that id 0 occurs; optional falsy custom edge attribute)
+        self.rebuild = dict(rebuild) if rebuild else None
         self.P = int(np.prod(self.dims)) if self.dims else 0
 
     @property
@@ -62,7 +66,8 @@ class Cfg:
     def to_json(self):
         return {"N": self.N, "T": self.T, "dims": list(self.dims), "scale": list(self.scale),
                 "use_scale": self.use_scale, "reg_cust": self.reg_cust,
-                "per_axis_pos": self.per_axis_pos, "name": self.name, "enable": self.enable}
+                "per_axis_pos": self.per_axis_pos, "name": self.name, "enable": self.enable,
+                "rebuild": self.rebuild}
 
     @staticmethod
     def from_json(d):
@@ -77,8 +82,10 @@ def user_pos(n):
 class Driver:
     """A real SolutionTracks plus the recording of refresh emissions."""
 
-    def __init__(self, cfg: Cfg, graph=None, seg=None):
+    def __init__(self, cfg: Cfg, graph=None, seg=None, shift=0, ecust=False):
         self.cfg = cfg
+        self.shift = shift              # real id = model id - shift
+        self.ecust = ecust
         g = graph if graph is not None else nx.DiGraph()
         if cfg.has_seg:
             if seg is None:
@@ -94,10 +101,35 @@ class Driver:
             self.tracks.features[CUSTOM_KEY] = {
                 "feature_type": "node", "value_type": "int", "num_values": 1,
                 "display_name": "custom", "required": False, "default_value": None}
+        if ecust:
+            self.tracks.features[ECUSTOM_KEY] = {
+                "feature_type": "edge", "value_type": "int", "num_values": 1,
+                "display_name": "edge custom", "required": False, "default_value": None}
         if cfg.enable:
             self.tracks.enable_features([FEAT[k] for k in cfg.enable])
         self.emits = []
         self.tracks.refresh.connect(self._on_refresh)
+
+    def rebuilt(self):
+        """A new Driver whose tracks are CONSTRUCTED from a copy of this one's graph and array."""
+        rb = self.cfg.rebuild
+        shift = int(rb.get("shift", 0))
+        tr = self.tracks
+        g = nx.DiGraph()
+        idk, lk = tr.features.tracklet_key, tr.features.lineage_key
+        for n, a in tr.graph.nodes(data=True):
+            b = dict(a)
+            for k in (idk, lk):
+                if b.get(k) is not None:
+                    b[k] = b[k] - shift
+            g.add_node(n, **b)
+        for u, v, a in tr.graph.edges(data=True):
+            b = dict(a)
+            if rb.get("ecust"):
+                b[ECUSTOM_KEY] = (u + v) % 2        # 0 is falsy but not None
+            g.add_edge(u, v, **b)
+        seg = None if tr.segmentation is None else np.array(tr.segmentation, copy=True)
+        return Driver(self.cfg, graph=g, seg=seg, shift=shift, ecust=bool(rb.get("ecust")))
 
     def _on_refresh(self, *args):
         a = args[0] if args else None
@@ -125,7 +157,7 @@ class Driver:
                 if not fl & 4:
                     attrs[tr.features.time_key] = t
                 if not fl & 8:
-                    attrs[tr.features.tracklet_key] = tid
+                    attrs[tr.features.tracklet_key] = tid - self.shift
                 if not fl & 2 and not self.cfg.has_seg:
                     if self.cfg.per_axis_pos:
                         attrs["y"], attrs["x"] = user_pos(n)
@@ -144,7 +176,8 @@ class Driver:
                 key = {1: CUSTOM_KEY, 2: tr.features.time_key, 3: tr.features.tracklet_key,
                        4: tr.features.lineage_key, 5: "pos", 6: "area", 7: "iou",
                        8: "circularity"}[c[2]]
-                val = c[3] if c[2] != 5 else [float(c[3]), float(c[3])]
+                # model value v is stored as v - 1, so that the falsy value 0 occurs
+                val = c[3] - 1 if c[2] != 5 else [float(c[3]), float(c[3])]
                 UserUpdateNodeAttrs(tr, c[1], {key: val})
             elif k == K_UNDO:
                 ret = bool(tr.undo())
@@ -161,7 +194,7 @@ class Driver:
                 for ov in sorted(set(int(x) for x in old)):
                     sel = old == ov
                     updated.append((tuple(a[sel] for a in px), ov))
-                UserUpdateSegmentation(tr, v, updated, tf // 2, force=bool(tf % 2))
+                UserUpdateSegmentation(tr, v, updated, tf // 2 - self.shift, force=bool(tf % 2))
             elif k == K_ENABLE:
                 keys = [FEAT[FEAT_BITS[i]] for i in range(len(FEAT_BITS)) if (c[1] >> i) & 1]
                 if c[1] & 256:
@@ -188,7 +221,7 @@ class Driver:
 
     # ------------------------------------------------------------- projection
     def project(self, queries=False):
-        return project(self.tracks, self.cfg, queries)
+        return project(self.tracks, self.cfg, queries, self.shift)
 
 
 def rat(x, bound=64):
@@ -207,7 +240,7 @@ def rat(x, bound=64):
     return [f.numerator, f.denominator]
 
 
-def project(tr, cfg: Cfg, queries=False):
+def project(tr, cfg: Cfg, queries=False, shift=0):
     N = cfg.N
     g = tr.graph
     tk, idk, lk = tr.features.time_key, tr.features.tracklet_key, tr.features.lineage_key
@@ -220,9 +253,9 @@ def project(tr, cfg: Cfg, queries=False):
         a = g.nodes[n]
         t = a.get(tk)
         time.append(int(t) if t is not None else -2)
-        v = a.get(idk); tid.append(int(v) if v is not None else 0)
-        v = a.get(lk) if lk is not None else None; lid.append(int(v) if v is not None else 0)
-        v = a.get(CUSTOM_KEY); cust.append(int(v) if v is not None else 0)
+        v = a.get(idk); tid.append(int(v) + shift if v is not None else 0)
+        v = a.get(lk) if lk is not None else None; lid.append(int(v) + shift if v is not None else 0)
+        v = a.get(CUSTOM_KEY); cust.append(int(v) + 1 if v is not None else 0)
         v = a.get("area")
         if v is None:
             area.append(-1)
@@ -239,38 +272,97 @@ def project(tr, cfg: Cfg, queries=False):
                 pos.append([])
             else:
                 pos.append([rat(x) for x in v])
-    E, iou = [], []
+    E, iou, ecust = [], [], []
     for u, v in g.edges:
         E.append([int(u), int(v)])
+        ev = g.edges[u, v].get(ECUSTOM_KEY)
+        if ev is not None:
+            ecust.append([int(u), int(v), int(ev) + 1])
         val = g.edges[u, v].get("iou")
         r = rat(val) if val is not None else [-1, 1]
         iou.append([int(u), int(v), r[0], r[1]])
     ta = tr.track_annotator
-    t2n = [[int(i), int(n)] for i, ns in ta.tracklet_id_to_nodes.items() for n in ns]
-    l2n = [[int(i), int(n)] for i, ns in ta.lineage_id_to_nodes.items() for n in ns]
+    t2n = [[int(i) + shift, int(n)] for i, ns in ta.tracklet_id_to_nodes.items() for n in ns]
+    l2n = [[int(i) + shift, int(n)] for i, ns in ta.lineage_id_to_nodes.items() for n in ns]
     seg = []
     outside = 0
     if tr.segmentation is not None:
         seg = [int(x) for x in np.asarray(tr.segmentation).reshape(-1)]
+    shpv, shpr = shape_digests(tr, cfg)
     act = sorted(RFEAT.get(k, k) for k in tr.annotators.features)
     reg = sorted(RFEAT.get(k, k) for k in tr.features)
     out = {
         "time": time, "E": E, "tid": tid, "lid": lid, "t2n": t2n, "l2n": l2n,
-        "maxT": int(ta.max_tracklet_id), "maxL": int(ta.max_lineage_id),
-        "cust": cust, "pos": pos, "area": area, "iou": iou, "seg": seg,
-        "act": act, "reg": reg,
+        "maxT": int(ta.max_tracklet_id) + shift, "maxL": int(ta.max_lineage_id) + shift,
+        "cust": cust, "pos": pos, "area": area, "iou": iou, "ecust": ecust, "seg": seg,
+        "act": act, "reg": reg, "shpv": shpv, "shpr": shpr,
         "ulen": len(tr.action_history.undo_stack), "rlen": len(tr.action_history.redo_stack),
         "extra": len(extra_nodes) + outside,
         "scale": [rat(x) for x in tr.scale] if tr.scale is not None else [],
     }
     if queries:
-        out["q"] = project_queries(tr, cfg)
+        out["q"] = project_queries(tr, cfg, shift)
     return out
 
 
-def project_queries(tr, cfg):
+SHAPE_KEYS = ["circularity", "perimeter", "ellipse_axis_radii"]
+SHAPE_ATTR = {"circularity": "circularity", "perimeter": "perimeter", "ellipse_axis_radii": "axes"}
+
+
+def digest(v):
+    """stored shape value -> short string ('' = None / absent)"""
+    if v is None:
+        return ""
+    if isinstance(v, (list, tuple, np.ndarray)):
+        return "[" + ",".join(digest(x) for x in v) + "]"
+    try:
+        return repr(round(float(v), 7))
+    except (TypeError, ValueError):
+        return "?" + str(v)[:20]
+
+
+def shape_digests(tr, cfg):
+    """per shape key, per node: digest of the stored value and of a from-scratch computation on
+    a copy of the same array (only where a value is stored)."""
+    N = cfg.N
+    shpv = [["" for _ in range(N)] for _ in SHAPE_KEYS]
+    shpr = [["" for _ in range(N)] for _ in SHAPE_KEYS]
+    if tr.segmentation is None:
+        return shpv, shpr
+    from funtracks.annotators._regionprops_extended import regionprops_extended
+    spacing = None if tr.scale is None else tuple(tr.scale[1:])
+    for n in range(1, N + 1):
+        if n not in tr.graph:
+            continue
+        a = tr.graph.nodes[n]
+        region = None
+        for ki, key in enumerate(SHAPE_KEYS):
+            v = a.get(key)
+            shpv[ki][n - 1] = digest(v)
+            if v is None:
+                continue
+            if region is None:
+                t = a.get(tr.features.time_key)
+                frame = np.array(tr.segmentation[int(t)], copy=True)
+                masked = np.where(frame == n, n, 0)
+                regs = regionprops_extended(masked, spacing=spacing) if masked.max() > 0 else []
+                region = regs[0] if regs else False
+            if region is False:
+                shpr[ki][n - 1] = "nomask"
+            else:
+                try:
+                    rv = getattr(region, SHAPE_ATTR[key])
+                    if isinstance(rv, tuple):
+                        rv = list(rv)
+                    shpr[ki][n - 1] = digest(rv)
+                except Exception as e:  # noqa: BLE001
+                    shpr[ki][n - 1] = "exc:" + type(e).__name__
+    return shpv, shpr
+
+
+def project_queries(tr, cfg, shift=0):
     """Answers of the public queries, for every id and every time point (C06, C07)."""
-    ids = range(1, int(tr.track_annotator.max_tracklet_id) + 2)
+    ids = range(1 - shift, int(tr.track_annotator.max_tracklet_id) + 2)
     nbr, has = [], []
     for i in ids:
         row_n, row_h = [], []
@@ -290,14 +382,19 @@ def project_queries(tr, cfg):
             else:
                 pix.append([])
     return {"nbr": nbr, "has": has, "pix": pix,
-            "next_tid": int(tr.get_next_track_id()), "next_lid": int(tr.get_next_lineage_id())}
+            "next_tid": int(tr.get_next_track_id()) + shift, "next_lid": int(tr.get_next_lineage_id()) + shift}
+
+
+# SwitchMasks of MC.tla
+SWITCH_MASKS_SEG = [1, 2, 4, 8, 3, 5, 6, 12, 16, 64, 128, 15, 256, 257]
+SWITCH_MASKS_NOSEG = [8, 32, 40, 1, 256, 264]
 
 
 def alphabet(drv: Driver, kinds=None, wide=True):
     """All calls of the alphabet in the current real state (mirrors Calls(s) in MC.tla)."""
     cfg, tr = drv.cfg, drv.tracks
     N, T = cfg.N, cfg.T
-    maxT = int(tr.track_annotator.max_tracklet_id)
+    maxT = int(tr.track_annotator.max_tracklet_id) + drv.shift
     nodes = range(1, N + 1)
     out = []
     kinds = kinds or {1, 2, 3, 4, 5, 6, 9}
@@ -321,8 +418,12 @@ def alphabet(drv: Driver, kinds=None, wide=True):
     if K_SWAP in kinds:
         out += [[K_SWAP, a, b, 0, 0] for a in nodes for b in nodes]
     if K_SETATTR in kinds:
-        keys = (1, 2, 3, 4, 5, 6) if cfg.has_seg else (1, 2, 3, 4)
+        keys = (1, 2, 3, 4, 5, 6, 7, 8) if cfg.has_seg else (1, 2, 3, 4)
         out += [[K_SETATTR, n, k, 1, 0] for n in nodes for k in keys]
+    if K_ENABLE in kinds:
+        masks = SWITCH_MASKS_SEG if cfg.has_seg else SWITCH_MASKS_NOSEG
+        out += [[K_ENABLE, m, r, 0, 0] for m in masks for r in (0, 1)]
+        out += [[K_DISABLE, m, 0, 0, 0] for m in masks]
     if K_PAINT in kinds and cfg.has_seg:
         g = tr.graph
         for t in range(T):
